@@ -471,20 +471,21 @@ def drive(a, prop, tier, cdir, plain, outdir, need_race, log, t0):
 
 
 EXPECTED_PROBES = {
-    "C01": ["cancel-during-send", "concurrent-reregistration", "history.failed-reregistration", "history.wide-event-type", "send.event-as-payload", "concurrent-removal", "node.decorator-without-closer-invoked"],
-    "C02": ["cancel-during-send", "history.wide-event-type", "fresh-type-read-between-setters"],
-    "C03": ["cancel-during-send", "node.stalled", "node.nested-send", "node.nested-send-same-type", "send.foreign-context-type", "send.channel-sink-without-consumer", "send.never-done-context-with-deadline"],
+    "C01": ["cancel-during-send", "concurrent-reregistration", "history.failed-reregistration", "history.wide-event-type", "send.event-as-payload", "concurrent-removal", "node.decorator-without-closer-invoked", "history.removal-with-nodes-under-done-context"],
+    "C02": ["cancel-during-send", "history.wide-event-type", "fresh-type-read-between-setters", "status.after-concurrent-change"],
+    "C03": ["cancel-during-send", "node.stalled", "node.nested-send", "node.nested-send-same-type", "send.foreign-context-type", "send.channel-sink-without-consumer", "send.never-done-context-with-deadline", "send.gated-filter-with-failing-inner-sends"],
     "C08": ["fs.external-rename", "fs.crashed", "fs.rotated", "fs.huge-event", "fs.unremovable-oldest", "fs.resent-after-error", "fs.external-rename-fresh-file-in-place"],
-    "C06": ["enum.exhausted", "registry.register-pipeline-panicked-in-user-code"],
-    "C04": ["history.shared-option-slice"],
+    "C06": ["enum.exhausted", "registry.register-pipeline-panicked-in-user-code", "registry.nested-by-value-decorators"],
+    "C05": ["registry.node-reconfigured-in-place"],
+    "C04": ["history.shared-option-slice", "history.shared-invalid-option"],
     "C11": ["gate.expired-group", "gate.flushall-many-groups", "enum.exhausted", "gate.broker-field-changed", "gate.backlog-flush-run", "gate.payload-object-reused-under-another-id"],
-    "C12": ["reentry.process", "reentry.close", "reentry.reopen", "reentry.send-cancelled", "reentry.file-pipeline", "reentry.wide-type", "reentry.gated-beside-raw"],
-    "C13": ["channel.room-fast-path", "channel.error", "fs.retry-after-failed-write", "writer.panicked"],
+    "C12": ["reentry.process", "reentry.close", "reentry.reopen", "reentry.send-cancelled", "reentry.file-pipeline", "reentry.wide-type", "reentry.gated-beside-raw", "reentry.encrypt-in-broker"],
+    "C13": ["channel.room-fast-path", "channel.error", "fs.retry-after-failed-write", "writer.panicked", "writer.partial-write-then-temporary-error"],
     "C14": ["json.unencodable", "json.context-done", "json.marshaler-touched-format-table"],
-    "C15": ["fs.model-rotation", "fs.external-rename", "fs.directory-removed-silently", "fs.future-stamped-leftovers"],
+    "C15": ["fs.model-rotation", "fs.external-rename", "fs.directory-removed-silently", "fs.future-stamped-leftovers", "fs.file-name-with-directory"],
     "C16": ["encrypt.rotated", "encrypt.recurring-event-id", "encrypt.rekeyed-in-place", "encrypt.rotation-from-no-salt-no-info"],
-    "C17": ["gate.expired-group", "gate.flushall-many-groups", "enum.exhausted", "gate.broker-field-changed", "gate.backlog-run", "gate.reopened", "gate.clock-stepped-back", "gate.clock-replaced"],
-    "C18": ["ce.signer-failed", "ce.signed", "ce.signer-panicked", "ce.reconfigured", "ce.second-rendering-failed", "ce.signer-gave-up-on-cancelled-context"],
+    "C17": ["gate.expired-group", "gate.flushall-many-groups", "enum.exhausted", "gate.broker-field-changed", "gate.backlog-run", "gate.reopened", "gate.clock-stepped-back", "gate.clock-replaced", "gate.send-succeeded-with-warnings"],
+    "C18": ["ce.signer-failed", "ce.signed", "ce.signer-panicked", "ce.reconfigured", "ce.second-rendering-failed", "ce.signer-gave-up-on-cancelled-context", "ce.url-with-user-information"],
 }
 
 
